@@ -427,6 +427,9 @@ def model_book(ans):
 
 
 FORMATS = ("csv", "xlsx", "json<csv", "json<xlsx")
+# + a JSON workbook written by the harness itself (not by convert: a converted file only holds what the source's reader
+# delivered, so e.g. an all-empty row never reaches the JSON reader that way)
+FORMATS_ALL = FORMATS + ("json",)
 
 
 def materialise(base: str, sheets: list[dict], style: dict) -> dict:
@@ -447,6 +450,12 @@ def materialise(base: str, sheets: list[dict], style: dict) -> dict:
         except Exception as e:  # noqa: BLE001
             texts[label] = None
             paths[label] = ("__exc__", f"{type(e).__name__}: {e}"[:300])
+    if all(len(set(s["headers"])) == len(s["headers"]) and s["rows"] for s in sheets):
+        j0 = os.path.join(base, "written.json")
+        with open(j0, "w", encoding="utf-8") as f:
+            json.dump({"meta": {"version": "0.1.0"}, "sheets": {s["name"]: [dict(zip(s["headers"], r)) for r in s["rows"]] for s in sheets}},
+                      f, ensure_ascii=False, indent=2)
+        paths["json"] = ("json", j0)
     return {"paths": paths, "texts": texts}
 
 
@@ -511,7 +520,9 @@ def read_worker(seeds):
                     count(nm, sum(1 for c in flat if pred(c)))
             # C: every reader returns exactly what was written
             got_by = {}
-            for label in FORMATS:
+            for label in FORMATS_ALL:
+                if label not in m["paths"]:
+                    continue
                 fmt, path = m["paths"][label]
                 got = {"__exc__": path} if fmt == "__exc__" else read_sheets(fmt, path)
                 got_by[label] = got
@@ -614,7 +625,7 @@ def read_worker(seeds):
             if "__error__" in ans:
                 out["ties"].append({"what": "driver error", "sheet": s, "error": ans["__error__"]})
                 continue
-            for label, key in (("csv", "csv"), ("xlsx", "xlsx"), ("json<csv", "json"), ("json<xlsx", "json")):
+            for label, key in (("csv", "csv"), ("xlsx", "xlsx"), ("json<csv", "json"), ("json<xlsx", "json")) + ((("json", "json"),) if "json" in got_by else ()):
                 real = got_by[label]
                 real_t = real.get(s["name"]) if "__exc__" not in real else {"__exc__": real["__exc__"]}
                 mt = model_table(ans[key])
@@ -1709,7 +1720,9 @@ def compile_worker(seeds):
             count("compile_sheet_name_not_nfc", sum(1 for s in sheets if not _is_nf("NFC", s["name"])))
             count("compile_sheet_name_nfc_not_nfkc", sum(1 for s in sheets if _is_nf("NFC", s["name"]) and not _is_nf("NFKC", s["name"])))
             res = {}
-            for label in FORMATS:
+            for label in FORMATS_ALL:
+                if label not in m["paths"]:
+                    continue
                 fmt, path = m["paths"][label]
                 res[label] = {"exc": path} if fmt == "__exc__" else compile_real(fmt, [path])
             ref = res["csv"]
@@ -1721,7 +1734,7 @@ def compile_worker(seeds):
                     out["sample"] = {"compiled": [s["name"] for s in sheets], "flows": ref["flows"], "nodes": ref["nodes"]}
             else:
                 count("source_compile_rejected")
-            for label in FORMATS[1:]:
+            for label in [l for l in FORMATS_ALL[1:] if l in res]:
                 a = {k: v for k, v in ref.items() if k in ("ok", "exc", "errors")}
                 b = {k: v for k, v in res[label].items() if k in ("ok", "exc", "errors")}
                 if a != b and len(out["viol"]) < 5:
@@ -1849,10 +1862,10 @@ def known_streams(ck: core.Check, tmp: str):
     AND the repaired input behaves (counterfactual).  Anything else on these inputs is a violation."""
     style = {"lt": "\r\n", "quote_all": False, "skip_empty": False}
 
-    def run_wb(tag, sheets):
+    def run_wb(tag, sheets, formats=FORMATS):
         m = materialise(os.path.join(tmp, tag), sheets, style)
         reads, comps = {}, {}
-        for label in FORMATS:
+        for label in formats:
             fmt, path = m["paths"][label]
             reads[label] = {"__exc__": path} if fmt == "__exc__" else read_sheets(fmt, path)
             comps[label] = {"exc": path} if fmt == "__exc__" else compile_real(fmt, [path])
@@ -1868,10 +1881,10 @@ def known_streams(ck: core.Check, tmp: str):
     for tag, wb in wbs_blank_rows().items():
         clean = omit_blank_rows(wb)
         exp_dropped = expect_of(clean)
-        reads, comps = run_wb("fa_" + tag.replace(":", "_"), wb)
+        reads, comps = run_wb("fa_" + tag.replace(":", "_"), wb, FORMATS_ALL)
         ck.case("blank_rows:" + tag, sample=None)
         ck.count("fixed_workbooks_with_all_empty_rows")
-        bad = {l: first_diff(exp_dropped, reads[l]) for l in FORMATS if first_diff(exp_dropped, reads[l]) is not None}
+        bad = {l: first_diff(exp_dropped, reads[l]) for l in FORMATS_ALL if first_diff(exp_dropped, reads[l]) is not None}
         if bad:
             ck.violation("all-empty rows: a reader does not deliver the sheet without them (the readers disagree on all-empty rows: F-C14-a is back)",
                          {"workbook": wb, "style": style, "format": sorted(bad)[0], "diff": bad, "expected": "every format: the sheets without their all-empty rows"})
@@ -1880,7 +1893,7 @@ def known_streams(ck: core.Check, tmp: str):
             ck.violation("all-empty rows: the formats do not compile the workbook alike",
                          {"workbook": wb, "style": style, "compile": {l: summarise(c) for l, c in comps.items()}})
             continue
-        r2, c2 = run_wb("fa2_" + tag.replace(":", "_"), clean)
+        r2, c2 = run_wb("fa2_" + tag.replace(":", "_"), clean, FORMATS_ALL)
         if not same_compile(c2) or c2["csv"].get("ok") != comps["csv"].get("ok"):
             ck.violation("all-empty rows: the workbook compiles to other flows than the same workbook without them",
                          {"workbook": wb, "style": style, "with": summarise(comps["csv"]), "without": summarise(c2["csv"])})
@@ -2257,7 +2270,7 @@ def replay(path):
             style = rp.get("style") or {"lt": "\r\n", "quote_all": False, "skip_empty": False}
             m = materialise(os.path.join(tmp, "w"), wb, style)
             exp = expect_of(omit_blank_rows(wb))
-            for label in FORMATS:
+            for label in [l for l in FORMATS_ALL if l in m["paths"]]:
                 fmt, p = m["paths"][label]
                 got = {"__exc__": p} if fmt == "__exc__" else read_sheets(fmt, p)
                 d = first_diff(exp, got)
